@@ -153,6 +153,12 @@ const MENUS: &[Menu] = &[Menu::None, Menu::Full, Menu::FileA, Menu::Reverse, Men
 /// Applies a change to the model state and returns the delta the server would send.
 fn step(st: &mut WState, c: Chg) -> Change {
     let mut ch = Change::default();
+    step_into(st, c, &mut ch);
+    ch
+}
+
+/// Adds the delta of one change to a `Change` under construction (several deltas may share one).
+fn step_into(st: &mut WState, c: Chg, ch: &mut Change) {
     match c {
         Chg::SetA(v) => {
             st.a = v;
@@ -193,7 +199,6 @@ fn step(st: &mut WState, c: Chg) -> Change {
             ch.change_file(F_A, Arc::from(A[st.a]));
         }
     }
-    ch
 }
 
 type Answers = Vec<(FileId, u32, Q, String)>;
@@ -270,14 +275,35 @@ fn first_diff(x: &Answers, y: &Answers) -> Option<String> {
 
 /// Replays one history on the real host; returns (class, key, detail) if the final answers differ.
 pub fn eval_history(hist: &[(Chg, Menu)], stride: usize) -> (Option<(String, String, String)>, bool, u64) {
+    eval_history_opt(hist, stride, false)
+}
+
+/// `batched`: the deltas of all steps travel in ONE `Change` (as the server does for several
+/// content changes of one notification, or a reload followed by client text); the menu of the
+/// first step is run before the batch (warm caches), the menu of the last one after it.
+pub fn eval_history_opt(hist: &[(Chg, Menu)], stride: usize, batched: bool) -> (Option<(String, String, String)>, bool, u64) {
     let mut st = WState::init();
     let mut host = AnalysisHost::new();
     host.apply_change(st.full_change());
     let initial = st.clone();
-    for (c, m) in hist {
-        let ch = step(&mut st, *c);
+    if batched {
+        if let Some((_, m)) = hist.first() {
+            run_menu(&host, &st, *m);
+        }
+        let mut ch = Change::default();
+        for (c, _) in hist {
+            step_into(&mut st, *c, &mut ch);
+        }
         host.apply_change(ch);
-        run_menu(&host, &st, *m);
+        if let Some((_, m)) = hist.last() {
+            run_menu(&host, &st, *m);
+        }
+    } else {
+        for (c, m) in hist {
+            let ch = step(&mut st, *c);
+            host.apply_change(ch);
+            run_menu(&host, &st, *m);
+        }
     }
     let files = st.module_files();
     let inc = sweep_files(&host, &files, ALL_Q, false, stride);
@@ -379,6 +405,53 @@ pub fn run(tier: Tier) -> i32 {
         if tier == Tier::Thorough && n == 3 {
             rep.caps.push(json!({"layer": "histories-len3", "cap": "query menus after the first step restricted to {None, Full}", "completed": "all change sequences of length 3"}));
         }
+        rep.layer(l);
+    }
+    // batched deltas: k changes in one Change object
+    {
+        let k = tier.pick(2usize, 3usize);
+        let menus: &[Menu] = &[Menu::None, Menu::Full];
+        let mut hists: Vec<Vec<(Chg, Menu)>> = vec![];
+        for len in 2..=k {
+            let mut seqs: Vec<Vec<Chg>> = vec![vec![]];
+            for _ in 0..len {
+                let mut next = vec![];
+                for sq in &seqs {
+                    for c in &chgs {
+                        let mut s2 = sq.clone();
+                        s2.push(*c);
+                        next.push(s2);
+                    }
+                }
+                seqs = next;
+            }
+            for sq in seqs {
+                for before in menus {
+                    let mut h: Vec<(Chg, Menu)> = sq.iter().map(|c| (*c, Menu::None)).collect();
+                    h[0].1 = *before;
+                    hists.push(h);
+                }
+            }
+        }
+        let res: Vec<(Option<Violation>, bool, u64)> = hists
+            .par_iter()
+            .map(|h| match crate::core::catch(|| eval_history_opt(h, stride, true)) {
+                Ok((v, changed, q)) => (v.map(|(class, key, detail)| Violation { class, key: format!("batched|{key}"), witness: json!({"history": hist_json(h), "batched": true}), detail: format!("batched history {:?} (one Change): {detail}", h) }), changed, q),
+                Err(m) => (Some(Violation { class: "panic".into(), key: crate::core::panic_class(&m), witness: json!({"history": hist_json(h), "batched": true}), detail: format!("batched history {h:?} panicked: {m}") }), false, 0),
+            })
+            .collect();
+        let mut l = Layer { name: "batched-deltas".into(), states: hists.len() as u64, exhaustive: true, ..Default::default() };
+        for (v, changed, q) in res {
+            l.transitions += q;
+            l.executions += 1;
+            if changed {
+                total_changed += 1;
+            }
+            if let Some(v) = v {
+                rep.violation(v);
+            }
+        }
+        l.bound = format!("all sequences of 2..={k} changes ({} each) whose deltas travel in ONE Change object, with the full query menu run before the batch or not; final sweep stride {stride}", chgs.len());
         rep.layer(l);
     }
     seeds_layer(&mut rep, tier);
@@ -487,7 +560,8 @@ pub fn replay(w: &Value) -> Vec<String> {
         return if a == b { vec![] } else { vec![format!("answers differ between seeds 0 and {sb}")] };
     }
     let Some(h) = parse_hist(&w["history"]) else { return vec!["bad witness".into()] };
-    match crate::core::catch(|| eval_history(&h, 1)) {
+    let batched = w["batched"].as_bool().unwrap_or(false);
+    match crate::core::catch(|| eval_history_opt(&h, 1, batched)) {
         Ok((Some((c, _, d)), _, _)) => vec![format!("{c}: {d}")],
         Ok((None, _, _)) => vec![],
         Err(m) => vec![format!("panic: {m}")],
